@@ -15,7 +15,9 @@
     the same T that is reported as pred_turnout;
  R5 merge keys: for every office class and aggregate level, the `on=` list of the cross-estimand merge contains every column of
     the per-estimand tables that does not carry the estimand name;
- R6 key availability: whenever unexpected units are grouped by a key (county / district), that key is recovered for them.
+ R6 key availability: whenever unexpected units are grouped by a key (county / district), that key is recovered for them;
+ R7 feed-private: get_estimates never writes to the caller's feed frame (the estimandizer computes derived result columns only when
+    absent, so a feed object refreshed in place and passed again would otherwise report the previous poll's derived columns).
 """
 from __future__ import annotations
 
@@ -56,6 +58,7 @@ def check(ctx):
     _bootstrap_margin(ctx)
     merge_keys(ctx, "C01.R5")
     key_availability(ctx, "C01.R6")
+    _feed_private(ctx)
 
 
 # ---------------------------------------------------------------------------------------------
@@ -591,3 +594,20 @@ def key_availability(ctx, rule):
     else:
         ctx.ob(rule + ".recovered", "CombinedDataHandler._get_unexpected_units|keys recovered whenever used", True, uf.where(),
                f"in all {nconf} (office class x requested list x table) configurations every grouping key of unexpected units is recovered")
+
+
+def _feed_private(ctx):
+    """R7.feed-private: "the counted-votes column equals the sum of the LIVE counts" - of this call's feed. The estimandizer derives
+    results_margin / results_weights only when the frame does not have them yet, which is sound only on a frame of this call's own:
+    if the caller's feed object were written to, a feed that is refreshed in place and handed in again (the next poll) would carry the
+    previous poll's derived columns and those would be reported as counted votes. So get_estimates must not modify its current_data
+    argument in place (the same alias / mutation summaries as C12.R4)."""
+    from ..mutation import Mutation
+    ge = ctx.fn("elexmodel.client", "ModelClient.get_estimates")
+    ctx.require("current_data" in ge.params, f"{ge.where()}: parameter current_data no longer exists")
+    hits = Mutation(ctx).mutated(ge).get("current_data", [])
+    ctx.ob("C01.R7.feed-private", f"{ge.qualname}|derived result columns are computed on a private copy of the feed", not hits,
+           hits[0][0] if hits else ge.where(),
+           "the feed frame the caller passed is never written to: every derived column is computed from this call's counts" if not hits
+           else f"the caller's feed frame is modified in place ({hits[0][1]}): a feed object that is refreshed and passed again keeps the derived "
+                f"columns of the previous poll (they are only computed when absent), which are then reported as counted votes")
